@@ -48,6 +48,11 @@ type JITCompiler struct {
 	// Compiled units cache
 	units    map[string]*CompilationUnit
 	unitsMux sync.RWMutex
+	// epoch counts invalidations (guarded by unitsMux). A compilation notes it
+	// when it starts and caches its result only if it is unchanged: code that
+	// was being compiled while the route was invalidated may stem from the old
+	// definition and must not be published after the invalidation.
+	epoch uint64
 
 	// Type specialization
 	specializationCache *SpecializationCache
@@ -112,6 +117,7 @@ func NewJITCompilerWithConfig(hotPathThreshold int, recompileWindow time.Duratio
 // CompileRoute compiles or recompiles a route based on profiling data
 func (jit *JITCompiler) CompileRoute(name string, route *ast.Route) ([]byte, error) {
 	startTime := time.Now()
+	epoch := jit.currentEpoch()
 
 	// Check if we have a cached compiled unit. Work on a copy taken under the
 	// lock: recompileRoute rewrites the cached unit's fields concurrently.
@@ -155,9 +161,11 @@ func (jit *JITCompiler) CompileRoute(name string, route *ast.Route) ([]byte, err
 		LastExecuted:   time.Now(),
 	}
 
-	// Cache the unit
+	// Cache the unit, unless the cache was invalidated while it was compiled
 	jit.unitsMux.Lock()
-	jit.units[name] = newUnit
+	if jit.epoch == epoch {
+		jit.units[name] = newUnit
+	}
 	jit.unitsMux.Unlock()
 
 	// Update statistics
@@ -168,6 +176,13 @@ func (jit *JITCompiler) CompileRoute(name string, route *ast.Route) ([]byte, err
 	jit.statsMux.Unlock()
 
 	return bytecode, nil
+}
+
+// currentEpoch returns the invalidation count (see JITCompiler.epoch).
+func (jit *JITCompiler) currentEpoch() uint64 {
+	jit.unitsMux.RLock()
+	defer jit.unitsMux.RUnlock()
+	return jit.epoch
 }
 
 // snapshotUnit returns a copy of the named unit taken under the lock. The
@@ -244,6 +259,7 @@ func (jit *JITCompiler) shouldRecompile(unit CompilationUnit) bool {
 // recompileRoute recompiles a route to a higher optimization tier
 func (jit *JITCompiler) recompileRoute(name string, route *ast.Route, currentTier OptimizationTier) ([]byte, error) {
 	startTime := time.Now()
+	epoch := jit.currentEpoch()
 
 	// Determine next tier
 	nextTier := jit.getNextTier(currentTier)
@@ -255,9 +271,10 @@ func (jit *JITCompiler) recompileRoute(name string, route *ast.Route, currentTie
 	}
 
 	// Update the cached compilation unit; one that was invalidated meanwhile
-	// is not resurrected.
+	// is not resurrected, and neither is a unit that was re-created from a new
+	// definition since this compilation started.
 	jit.unitsMux.Lock()
-	if cached, ok := jit.units[name]; ok {
+	if cached, ok := jit.units[name]; ok && jit.epoch == epoch {
 		cached.Bytecode = bytecode
 		cached.Tier = nextTier
 		cached.CompiledAt = time.Now()
@@ -385,8 +402,9 @@ func (jit *JITCompiler) GetHotPaths() []string {
 // InvalidateCache removes a compilation unit from the cache
 func (jit *JITCompiler) InvalidateCache(name string) {
 	jit.unitsMux.Lock()
+	defer jit.unitsMux.Unlock()
 	delete(jit.units, name)
-	jit.unitsMux.Unlock()
+	jit.epoch++
 
 	// Type specialisations hold bytecode compiled from the same definition
 	jit.specializationCache.InvalidateSpecializations(name)
@@ -395,8 +413,9 @@ func (jit *JITCompiler) InvalidateCache(name string) {
 // ClearCache removes all compilation units from the cache
 func (jit *JITCompiler) ClearCache() {
 	jit.unitsMux.Lock()
+	defer jit.unitsMux.Unlock()
 	jit.units = make(map[string]*CompilationUnit)
-	jit.unitsMux.Unlock()
+	jit.epoch++
 
 	jit.specializationCache.Clear()
 }
@@ -422,6 +441,8 @@ func (jit *JITCompiler) SetRecompileWindow(window time.Duration) {
 
 // CompileRouteWithTypes compiles a route with type specialization
 func (jit *JITCompiler) CompileRouteWithTypes(name string, route *ast.Route, types map[string]string) ([]byte, error) {
+	epoch := jit.currentEpoch()
+
 	// Check for existing specialization
 	if spec := jit.specializationCache.GetSpecialization(name, types); spec != nil {
 		jit.statsMux.Lock()
@@ -440,8 +461,14 @@ func (jit *JITCompiler) CompileRouteWithTypes(name string, route *ast.Route, typ
 		return nil, err
 	}
 
-	// Cache the specialization
-	jit.specializationCache.AddSpecialization(name, types, bytecode)
+	// Cache the specialization, unless the cache was invalidated meanwhile
+	// (invalidations hold unitsMux exclusively while they bump the epoch and
+	// invalidate the specializations)
+	jit.unitsMux.RLock()
+	if jit.epoch == epoch {
+		jit.specializationCache.AddSpecialization(name, types, bytecode)
+	}
+	jit.unitsMux.RUnlock()
 
 	return bytecode, nil
 }
